@@ -140,7 +140,7 @@ Row(n, s, r) == IF r > 1 THEN PR(n, s, r)
 Dim(s)     == 1 + (s % 3)
 Poly(n, s) == Fv([r \in 1..Dim(s) |-> Row(n, s, r)])
 
-EvalSeeds  == IF Thorough THEN 0..39 ELSE {0, 1, 3, 5, 9, 10, 11, 13}
+EvalSeeds  == IF Thorough THEN 0..59 ELSE {0, 1, 3, 5, 9, 10, 11, 13}
 TrajSeeds  == IF Thorough THEN 0..99 ELSE 0..9
 MultiSeeds == IF Thorough THEN 0..149 ELSE 0..19
 V3         == IF Thorough THEN -3..3 ELSE {-3, 0, 2}
